@@ -63,3 +63,7 @@ def control_order(inp):
     if pre is None or not np.allclose(pre, y @ x):
         bad.append({'get-add-get': 'later additions not seen or composed in the wrong order'})
     return {'violates': bool(bad), 'detail': bad[:4]}
+
+
+# thorough tier (bounded native sweeps): (function, inputs, obligation of the open finding it reproduces or None)
+THOROUGH = [('chain_order', {}, None), ('control_order', {}, None)]
